@@ -140,6 +140,14 @@ def schemata():
         S.append((part, 'rr(1,12). rr(11,2).\n&tel { > p(X,Y) } :- rr(X,Y), a.', "rr(1,12). rr(11,2).\np'(1,12) :- rr(1,12), a.\np'(11,2) :- rr(11,2), a."))
         S.append((part, 'rr(1,12). rr(11,2).\n&tel { p(X,Y) | > p(Y,X) } :- rr(X,Y), not a.',
                   'rr(1,12). rr(11,2).\n&tel { p(1,12) | > p(12,1) } :- rr(1,12), not a.\n&tel { p(11,2) | > p(2,11) } :- rr(11,2), not a.'))
+    # elements one of which is textually part of another; variables that differ in a trailing prime; a future head over a body with a conditional literal
+    for part in ('always', 'initial', 'dynamic'):
+        S.append((part, ':- not &tel { > a ; a }.', ':- not &tel { (> a) & a }.'))
+        S.append((part, 's :- not &tel { X > a : X = 0..1 }.', 's :- not &tel { (0 > a) & (1 > a) }.'))
+        S.append((part, ':- not &tel { q(1) ; q(1) | a ; > q(1) }.', ':- not &tel { q(1) & (q(1) | a) & (> q(1)) }.'))
+        S.append((part, "&tel { > p(X,X') } :- q(X), q(X'), X < X'.", '&tel { > p(1,2) } :- q(1), q(2).'))
+        S.append((part, "p'(X) :- d(X), q(Y) : d(Y).", "p'(1) :- q(1), q(2).\np'(2) :- q(1), q(2)."))
+        S.append((part, "-p'(X) :- d(X), not q(Y) : d(Y), Y < X.", "-p'(1).\n-p'(2) :- not q(1)."))
     # &del elements with conditions that are not facts, alone and next to an unconditioned element
     for part in ('always', 'initial', 'dynamic'):
         S.append((part, ':- not &del { a .>? q(2) : q(1) }.', ':- q(1), not &del { a .>? q(2) }.'))
@@ -288,12 +296,22 @@ NEG_RENAMED = [
 ]
 
 
+# an even number of classical negation signs in front of an atom is no sign at all - in bodies, in formulas of either kind, in heads
+DOUBLE_NEG = [('#program always.\n{ q }.\n:- not &tel { > - -q }.\n', '#program always.\n{ q }.\n:- not &tel { > q }.\n'),
+              ('#program always.\n{ q(1) }.\n-q(1) :- not q(1).\ns :- not &tel { < - - -q(1) }.\n', '#program always.\n{ q(1) }.\n-q(1) :- not q(1).\ns :- not &tel { < -q(1) }.\n'),
+              ('#program initial.\n{ c }.\n&tel { - -q | > - - -r(1) } :- c.\n', '#program initial.\n{ c }.\n&tel { q | > -r(1) } :- c.\n'),
+              ('#program always.\n{ q }.\n:- not &del { ? q .>? q }.\n', '#program always.\n{ q }.\n:- not &del { ? q ;; &true .>? q } , not q.\n:- not &del { ? q .>? q }.\n')]
+
+
 def negation_cases(ctx, H):
     inputs = []
     for a, b in NEG_RENAMED:
         inputs += [[a], [b]]
     res = meta.answer_sets(ctx, inputs, H, timeout=60)
     cex = []
+    dres = meta.answer_sets(ctx, [[x] for ab in DOUBLE_NEG[:3] for x in ab], H, timeout=60)
+    dcex = [{'key': 'c06:double-negation:' + a.replace('\n', ' '), 'what': 'an even number of classical negation signs changes the answer sets: %s' % json.dumps(meta.first_diff(dres[2 * i], dres[2 * i + 1])),
+             'input': {'negated': a, 'renamed': b, 'H': H, 'plain': True}} for i, (a, b) in enumerate(DOUBLE_NEG[:3]) if not meta.same(dres[2 * i], dres[2 * i + 1])]
     for i, (a, b) in enumerate(NEG_RENAMED):
         ra, rb = res[2 * i], res[2 * i + 1]
         if 'ok' in rb:
@@ -301,7 +319,7 @@ def negation_cases(ctx, H):
         if not meta.same(ra, rb):
             cex.append({'key': 'c06:negation:' + a.replace('\n', ' '), 'what': 'the program with a classically negated predicate and the program with a fresh positive predicate in its place show different atoms: %s' % json.dumps(meta.first_diff(ra, rb)),
                         'input': {'negated': a, 'renamed': b, 'H': H}})
-    return cex, len(inputs)
+    return cex + dcex, len(inputs) + len(dres)
 
 
 # #project p/n. concerns the atoms p(args,k): with --project the answer sets, cut to the projected atoms, are those of the program without the other choices
@@ -383,6 +401,9 @@ def replay(ctx, payload):
             return bool(project_cases(ctx, inp.get('H', 2))[0])
         finally:
             PROJECTED = keep
+    if 'negated' in inp and inp.get('plain'):
+        r = meta.answer_sets(ctx, [[inp['negated']], [inp['renamed']]], inp.get('H', 2), timeout=60)
+        return not meta.same(r[0], r[1])
     if 'negated' in inp:
         global NEG_RENAMED
         keep, NEG_RENAMED = NEG_RENAMED, [(inp['negated'], inp['renamed'])]
